@@ -16,6 +16,17 @@ def main():
     ap.add_argument("--tier", default=os.environ.get("VERIF_TIER", "quick"))
     ap.add_argument("--seed", type=int, default=int(os.environ.get("VERIF_SEED", "0") or 0))
     a = ap.parse_args()
+    if a.pid == "warmup":
+        # compile the numba kernels for the current /repo sources into the content-addressed cache
+        import warnings
+        import piquasso as pq
+        from . import engine_natural as EN
+        from .recorder import EngineRecorder
+        rec = EngineRecorder()
+        with warnings.catch_warnings():
+            warnings.simplefilter("ignore")
+            EN.run_natural(pq, rec, 0, per_family=4)
+        sys.exit(0)
     if a.pid == "replay":
         obj = json.load(open(a.rest[0]))
         pid = obj["property"]
